@@ -1,3 +1,4 @@
 CONSTANTS
+  Defects = {}
   Vals = {1, 2, 3}
 INVARIANTS TypeOK CacheCoherent StoredIsLastWritten
